@@ -73,7 +73,48 @@ DB_ASSUME = COMMON_ASSUME + [
 DB_TB = ["db.rs modelled completely at byte level: record encoding, read_signature/read_file/read_path/read_build, IdMap, ensure_id, write_build, open's truncate-then-append",
          "hash values are opaque u64 here"]
 
+def _load_nontrivial(case, impl):
+    # non-trivial: a graph with at least one build was loaded, or a diagnostic past the first line
+    it = impl.split()
+    if it[:1] == ["ok"]:
+        return " B 0 " not in impl
+    return it[:1] == ["perr"] and len(it) > 2 and it[2] not in ("0", "1")
+
+LOAD_RULE = ("2000 (quick) / 40000 (thorough) abstract manifests (bindings, rules with every whitelisted variable, build "
+             "statements with all emptiness patterns of the 4 input and 2 output sections, escapes $ $: $$, UTF-8, "
+             "defaults, pools, include/subninja files, comments) each rendered under a plain and a noisy spelling "
+             "(extra blanks, $-newline continuations wherever the grammar allows incl. inside tokens, $x vs ${x}, "
+             "$-escaped blanks/colons in values) and loaded by the REAL loader in a temp dir (`loadpair`); every 4th "
+             "manifest with duplicate outputs injected (between statements / within one, ./ and x/../ spellings); "
+             "every string of up to 3 (quick) / 4 tokens over a 22-token alphabet incl. NUL, CR, TAB, 2- and 4-byte "
+             "characters; 6000 / 200000 mutated manifests (byte/token insert, delete, truncate, 60-160 byte runs of "
+             "a 2-byte character, 50-70 component paths); include cycles, missing includes, empty expansions. "
+             "Non-trivial = loaded graph with builds, or a diagnostic beyond line 1")
+LOAD_ASSUME = COMMON_ASSUME + [
+    "memory exhaustion and native stack depth on huge inputs are not modelled",
+    "manifest bytes are treated as Latin-1 like the scanner does; error messages are compared by kind, file, line, caret column and excerpt bytes ({:?} renderings of offending characters are not compared)",
+]
+LOAD_TB = ["scanner.rs, parse.rs, eval.rs, load.rs (up to opening the log), graph.rs add_build/remove_duplicates modelled completely; format_parse_error modelled at byte level",
+           "calc_evaluated_length (a capacity hint) is not modelled"]
+
 PROPS = {
+    "C10": {"claim": "Lean 4 theorems about the parser/loader model: the section counts of every parsed build line partition its path lists in declared order for all emptiness patterns (proof through the monadic parser by bind inversion); reading further sections only appends; one file id per declared path; adjacent/empty literal parts left by escapes and continuations evaluate like their concatenation. The whole-file round trip parse∘render is validated, not yet proved: the real loader and the model agree on every generated manifest and the monitor spellingIndependent (plain vs noisy spelling load to the same graph, line numbers masked) is evaluated in Lean on the implementation's dumps.",
+            "props": ["C10"], "modes": ["load"], "level": "proof", "nontrivial": {"load": _load_nontrivial},
+            "rule": LOAD_RULE, "assumptions": LOAD_ASSUME, "trusted_base": LOAD_TB,
+            "monitors": ["spellingIndependent"]},
+    "C11": {"claim": "Lean 4 theorems about eval/load: first scope wins and the value found is expanded in the scopes after it only; undefined variables expand to empty; expansion terminates (fuel = number of scopes is always enough) and is a homomorphism over concatenation; a build-block binding of an attribute is expanded in file scope only, otherwise the rule's binding sees $in/$out, then the build block, then file scope; later redefinitions are local (insert/lookup laws). n2's include gives the included file a COPY of the scope (finding F12, open): `loadWith true` is the Ninja/property semantics as an executable specification and the check reports inputs on which the real loader differs from it as the known finding; any other difference is a violation.",
+            "props": ["C11"], "modes": ["load"], "level": "proof", "nontrivial": {"load": _load_nontrivial},
+            "rule": LOAD_RULE, "assumptions": LOAD_ASSUME, "trusted_base": LOAD_TB,
+            "monitors": ["includeExtendsScope"]},
+    "C12": {"claim": "Lean 4 theorems: format_parse_error always finds the error's line (never its panic) for every buffer and offset, its excerpt is bounded and both cuts are at character boundaries (F2 repaired); canonicalisation is total on non-empty strings (F3/F4 repaired) and the loader diagnoses the empty path; include nesting is structurally bounded (F14 repaired). Scanner-level no-out-of-bounds for all byte strings is so far validated, not proved: the real loader runs with unchecked-precondition and overflow checks ON over all short token strings, mutants and raw bytes; a panic/abort of the worker is a violation (monitor loadedOrDiagnostic) and the model (with explicit oob/panic/fuel outcomes) must agree on every input (also for depfiles and canon inputs).",
+            "props": ["C12"], "modes": ["load", "depfile", "canon"], "level": "proof",
+            "nontrivial": {"load": _load_nontrivial, "depfile": _depfile_nontrivial, "canon": _canon_nontrivial},
+            "rule": LOAD_RULE, "assumptions": LOAD_ASSUME, "trusted_base": LOAD_TB,
+            "monitors": ["loadedOrDiagnostic", "okOrDiagnostic", "noPanic", "noAbort"]},
+    "C14": {"claim": "Lean 4 theorems about Graph::add_build: a statement naming an output that another statement already produces is rejected (it can never take the file over: claiming only writes the new id, so the offending entry is still there when the loop reaches it), for any position among the outputs and after any inputs were registered; repeated outputs inside one statement are de-duplicated to a duplicate-free list with the same members; the latent `explicit` miscount of remove_duplicates is exhibited. Tied to the real loader on manifests with injected duplicates (across statements, within one, ./ and x/../ spellings, via includes): error kind + both locations and warning counts compared.",
+            "props": ["C14"], "modes": ["load"], "level": "proof", "nontrivial": {"load": _load_nontrivial},
+            "rule": LOAD_RULE, "assumptions": LOAD_ASSUME, "trusted_base": LOAD_TB,
+            "monitors": []},
     "C07": {"claim": "Lean 4 theorems for ALL record lists within the field widths and ALL cut points: a complete record is read back exactly whatever follows; a record of which only k < len bytes were written is not read at all; hence parse(log ++ torn tail) = exactly the complete records with their length as the intact prefix; a torn signature is an empty log; after truncating to the intact prefix and appending, the file parses to survivors ++ new records (so it stays loadable for ever). Tied to the real db.rs by byte-exact comparison of written logs and by opening EVERY byte prefix of each log with the real db::open (then appending and re-reading); monitors startsNormally / survivorsExact / laterLoadable are evaluated in Lean against the specification 'records wholly inside the first k bytes'.",
             "props": ["C07"], "modes": ["db"], "level": "proof", "nontrivial": {"db": _db_nontrivial},
             "rule": DB_RULE, "assumptions": DB_ASSUME, "trusted_base": DB_TB,
